@@ -42,11 +42,11 @@ func processReadBuf(rb []byte, searchDepth int) []byte {
 }
 
 func (c *Channel) read() {
-	// capture this open's signalling channels, a later Open replaces them
-	done, readLoopDone := c.done, c.readLoopDone
+	// capture this open's signalling channels and exited flag, a later Open replaces them
+	done, readLoopDone, exited := c.done, c.readLoopDone, c.readLoopExited
 
 	defer func() {
-		c.readLoopExited.Store(true)
+		exited.Store(true)
 
 		verifYield("creader.exit")
 
